@@ -512,7 +512,8 @@ def PyExpr.isNumber : PyExpr → Bool
 
 mutual
   /-- Every operand is at least as tightly binding as its position requires (or is
-  parenthesised): the printed text parses back to the same tree. -/
+  parenthesised), and an `and` / `or` has at least two operands: the printed text parses back
+  to the same tree (`Lemmas/PyParse.lean`: `parse (print x) = strip x`). -/
   def parenOK : PyExpr → Bool
     | .neg e => 6 ≤ e.level && parenOK e
     | .attr e _ _ => 7 ≤ e.level && !e.isNumber && parenOK e
@@ -521,8 +522,8 @@ mutual
     | .callFun _ args => parenOKList 1 args
     | .compare l _ r => 5 ≤ l.level && 5 ≤ r.level && parenOK l && parenOK r
     | .not e => 3 ≤ e.level && parenOK e
-    | .boolop true vals => parenOKList 3 vals
-    | .boolop false vals => parenOKList 2 vals
+    | .boolop true vals => 2 ≤ vals.length && parenOKList 3 vals
+    | .boolop false vals => 2 ≤ vals.length && parenOKList 2 vals
     | .binop _ l r => 5 ≤ l.level && 6 ≤ r.level && parenOK l && parenOK r
     | .fstring ps => parenOKParts ps
     | .quant _ elt _ it => parenOK elt && parenOKIter it
